@@ -199,6 +199,16 @@ func runC12(e *core.Env) {
 		}
 		o := gen.Opts{MaxRecs: 12, MinRecs: 1, MaxEntries: 4, OpenRanges: 1, Tags: 1, Near: &today, NearSpread: r.PickInt(2, 8, 40, 200, 900), Hostile: r.Chance(1, 5), MaxHours: 12}
 		d := gen.Document(r, o)
+		switch core.Hash64("c12-size", fmt.Sprint(e.Seed, i)) % 300 {
+		case 0: // more than a thousand records behind the generated ones
+			if x, ok := withAppended(d, manyRecordsText(r, r.PickInt(1001, 1300))); ok {
+				d = x
+			}
+		case 1: // a line beyond 64 KiB
+			if x, ok := withAppended(d, longLineText(r, r.PickInt(65536, 70000))); ok {
+				d = x
+			}
+		}
 		f := writeFile(e.Dir, "c12.klg", d.Text)
 		inFiles := []string{f}
 		if r.Chance(1, 5) {
